@@ -23,7 +23,7 @@ exhaustive over the mapping node classes that occur in a pmapping and pairs each
 analysis function; (S6) energy = count x per-action energy, leak = total_leak_power x latency x
 non-gated proportion, overall latency = max over components, totals = sums x n_instances, a component's
 default latency is the sum over actions of n_calls / throughput; (S7) values are converted to actions
-with scale 1 / values_per_action. NOT decided: the loop-nest semantics behind the counts.
+with scale 1 / values_per_action of the matching action; (S8) skipped-first reads are recorded only under the full guard (output tensor, below and not the backing holder, holder's skip flag). NOT decided: the loop-nest semantics behind the counts.
 """
 
 STATS = "accelforge/model/_looptree/reuse/symbolic/_stats.py"
@@ -190,6 +190,70 @@ def _s3(ctx):
     ctx.floor(R, 10)
 
 
+
+def _vpa_call_action(call, bind):
+    """literal action name of a `_get_values_per_action(A, tensor, workload_bpv)` call, resolving A through `bind` (param -> literal)"""
+    if not (isinstance(call, ast.Call) and call_name(call) == "_get_values_per_action" and len(call.args) == 3):
+        return None
+    if norm(call.args[1]) != "tensor" or norm(call.args[2]) != "workload_bpv":
+        return None
+    a0 = call.args[0]
+    if isinstance(a0, ast.Constant):
+        return a0.value
+    if isinstance(a0, ast.Name) and a0.id in bind:
+        return bind[a0.id]
+    return None
+
+
+def _scale_action(ctx, st, scale):
+    """Which action's values-per-action feeds `scale` (= 1 / vpa)?  -> (literal or None, site)"""
+    R = "C05-S4"
+    defs = [(s_, v) for s_ in st.stmts() for t, v, _ in assigned_targets(s_) if isinstance(t, ast.Name) and t.id == scale and not isinstance(v, ast.Constant)]
+    ctx.require(len(defs) == 1, R, f"{scale}: {len(defs)} non-constant definitions")
+    site, v = defs[0]
+    if isinstance(v, ast.IfExp):
+        v = v.body if not isinstance(v.body, ast.Constant) else v.orelse
+    local = {t.id: val for s_ in st.stmts() for t, val, _ in assigned_targets(s_) if isinstance(t, ast.Name)}
+    nested = {f.name: f for f in st.module.funcs.values() if f.parent is st}
+
+    inverted = {"v": True}
+
+    def inv_of(e, bind):
+        # e == 1 / X   (or, not inverted, e == X)
+        x = None
+        if isinstance(e, ast.BinOp) and isinstance(e.op, ast.Div) and norm(e.left) == "1":
+            x = e.right
+            inverted["v"] = True
+        elif isinstance(e, (ast.Name, ast.Call)):
+            x = e
+            inverted["v"] = False
+        if x is None:
+            return None
+        if isinstance(x, ast.Name):
+            x = bind.get("__locals__", local).get(x.id, x)
+        return _vpa_call_action(x, bind)
+
+    got = inv_of(v, {})
+    if got is None and isinstance(v, ast.Call) and isinstance(v.func, ast.Name) and v.func.id in nested:
+        h = nested[v.func.id]
+        hp = h.params()
+        bind = {p: (a.value if isinstance(a, ast.Constant) else None) for p, a in zip(hp, v.args)}
+        hl = {t.id: val for s_ in h.stmts() for t, val, _ in assigned_targets(s_) if isinstance(t, ast.Name)}
+        bind["__locals__"] = hl
+        rets = [s_ for s_ in h.stmts() if isinstance(s_, ast.Return)]
+        ctx.require(len(rets) == 1, R, f"helper {h.name}: returns")
+        got = inv_of(rets[0].value, bind)
+        site = rets[0] if got is not None else site
+        if got is None:
+            ctx.require(False, R, f"{scale}: helper {h.name} form")
+    ctx.require(got is not None, R, f"{scale}: cannot resolve which action's values-per-action feeds `{norm(v)[:60]}`")
+    _scale_action.inverted[scale] = inverted["v"]
+    return got, site
+
+
+_scale_action.inverted = {}
+
+
 def _s4(ctx):
     R = "C05-S4"
     ctx.doc(R, "values-per-action precedence: action.values_per_action, component.values_per_action, then bits_per_action / bits_per_value")
@@ -219,13 +283,12 @@ def _s4(ctx):
     bpa = tha.fields().get("bits_per_action")
     ok = bpa is not None and isinstance(bpa.value, ast.Constant) and "if bits_per_action is None else bits_per_action" in str(bpa.value.value)
     ctx.check(ok, R, tha, bpa if bpa is not None else tha.node, "an action's bits_per_action no longer falls back to the enclosing component's value", "action bits_per_action defaults to the component's")
-    # bits_per_value used by analyze_storage comes from component, else workload
+    # values per action used for each scale in analyze_storage: read_scale <- "read", write_scale <- "write"
     st = ctx.func(SY, "analyze_storage", R)
-    calls = [c for c in st.calls("_get_values_per_action")]
-    ctx.require(len(calls) == 2, R, "analyze_storage calls of _get_values_per_action")
-    for c, name in zip(sorted(calls, key=lambda c: c.lineno), ("read", "write")):
-        ok = isinstance(c.args[0], ast.Constant) and c.args[0].value == name and norm(c.args[1]) == "tensor" and norm(c.args[2]) == "workload_bpv"
-        ctx.check(ok, R, st, c, f"values per {name} action are looked up as `{norm(c)}`", f"{name}: (action name, tensor, workload bits per value)")
+    for scale, want in (("read_scale", "read"), ("write_scale", "write")):
+        got, site = _scale_action(ctx, st, scale)
+        ctx.check(got == want, R, st, site, f"{scale} is derived from the values-per-action of the `{got}` action, not `{want}`: a memory whose read and write actions have different widths gets its "
+                                             f"{want} counts (and energy/latency) converted with the wrong width", f"{scale} <- values per `{want}` action of (tensor, workload bits per value)")
     ctx.floor(R, 6)
 
 
@@ -321,10 +384,9 @@ def _s7(ctx):
     ctx.doc(R, "values -> actions: read_scale = 1/values_per_read_action, write_scale = 1/values_per_write_action, every action increment is values x scale")
     st = ctx.func(SY, "analyze_storage", R)
     N = Normaliser()
-    for name, vpa in (("read_scale", "read_values_per_action"), ("write_scale", "write_values_per_action")):
-        defs = [v for s in st.stmts() for t, v, _ in assigned_targets(s) if isinstance(t, ast.Name) and t.id == name and not (isinstance(v, ast.Constant))]
-        ok = len(defs) == 1 and repr(N.poly(defs[0])) == f"{vpa}**-1"
-        ctx.check(ok, R, st, defs[0] if defs else st.node, f"{name} is `{norm(defs[0]) if defs else None}` (expected 1 / {vpa}): counts are multiplied instead of divided by values per action", f"{name} = 1 / {vpa}")
+    for name in ("read_scale", "write_scale"):
+        got, site = _scale_action(ctx, st, name)   # raises (undecided) unless the scale has the form 1 / values_per_action(...)
+        ctx.check(_scale_action.inverted.get(name, False), R, st, site, f"{name} is the values-per-action itself, not its reciprocal: counts are multiplied instead of divided by values per action", f"{name} = 1 / values per {got} action")
     k = 0
     for s in st.stmts():
         if isinstance(s, ast.AugAssign) and isinstance(s.target, ast.Attribute) and s.target.attr.endswith("_actions"):
@@ -341,7 +403,35 @@ def _s7(ctx):
     ctx.require(k >= 12, R, f"action increments {k}")
 
 
+def _s8(ctx):
+    R = "C05-S8"
+    ctx.doc(R, "skipped-first reads are recorded (and thereby reported to the parent) only for never-written output values of a holder that skips its initial write: guard has all four conjuncts")
+    st = ctx.func(SY, "analyze_storage", R)
+    cfg = ctx.cfg(st)
+    calls = [c for c in st.calls("inherit_add") if c.args and isinstance(c.args[0], ast.Constant) and "skipped_first" in str(c.args[0].value)]
+    ctx.require(len(calls) == 2, R, f"skipped-first inherit_add sites {len(calls)}")
+    for c in calls:
+        n = cfg.stmt_node_containing(c)
+        conj = set()
+        for h, lab in cfg.control_conditions(n):
+            if h.kind == "if" and lab == "true":
+                conj |= {norm(x) for x in flatten_boolop(h.ast.test, ast.And)}
+        need = {"skip_initial": "the holder's skip_initial flag (a parent applies ITS OWN flag to what the child reports, so a child that does not skip must report 0)",
+                "not is_backing": "not the backing holder", "below_backing": "below the backing holder",
+                "tensor in info.workload.einsums[einsum_name].output_tensor_names": "an output tensor"}
+        for k, why in need.items():
+            ctx.check(k in conj, R, st, c, f"skipped-first reads are recorded without the conjunct `{k}` ({why}): first reads that do happen are subtracted from the parent's read count", f"conjunct `{k}` present")
+    # the holder's own skipped-first READ actions (towards the child) are booked under its own flag
+    incs = [s for s in st.stmts() if isinstance(s, ast.AugAssign) and isinstance(s.target, ast.Attribute) and "skipped_first_read_actions" in s.target.attr]
+    ctx.require(len(incs) == 2, R, f"skipped-first read-action increments {len(incs)}")
+    for s_ in incs:
+        conds = [(norm(h.ast.test), lab) for h, lab in cfg.control_conditions(cfg.node_of(s_)) if h.kind == "if"]
+        ctx.check(("skip_initial", "true") in conds, R, st, s_, "the parent-side skipped-first credit is booked regardless of the holder's skip_initial flag", "booked under the holder's own skip_initial")
+    ctx.floor(R, 10)
+
+
 def check(ctx):
+    _s8(ctx)
     _s1(ctx)
     _s2(ctx)
     _s3(ctx)
@@ -364,6 +454,8 @@ VARIANTS = [
     {"kind": "F", "name": "latency-sum-not-max", "rule": "C05-S6", "edits": [(RM, "    overall_latency = max_nonzero(*latency.values())\n\n    # try:", "    overall_latency = sum(latency.values())\n\n    # try:")]},
     {"kind": "F", "name": "combine-spatial-forgets-latency", "rule": "C05-S1", "edits": [(STATS, "        self.max_latency = max_nonzero(self.max_latency, other.max_latency)\n", "")]},
     {"kind": "F", "name": "fallback-inverted", "rule": "C05-S4", "edits": [(COMP, "        return action_bpa / tensor_bpv", "        return tensor_bpv / action_bpa")]},
+    {"kind": "F", "name": "skipped-first-without-flag", "rule": "C05-S8", "edits": [(SY, "                and below_backing\n                and skip_initial\n            ):", "                and below_backing\n            ):")]},
+    {"kind": "F", "name": "write-scale-from-read-width", "rule": "C05-S4", "edits": [(SY, '            write_values_per_action = component_object._get_values_per_action(\n                "write", tensor, workload_bpv\n            )', '            write_values_per_action = component_object._get_values_per_action(\n                "read", tensor, workload_bpv\n            )')]},
     {"kind": "S", "name": "dispatch-reordered", "edits": [(SY, "        Temporal: analyze_temporal,\n        Spatial: analyze_spatial,", "        Spatial: analyze_spatial,\n        Temporal: analyze_temporal,")]},
     {"kind": "S", "name": "energy-commuted", "edits": [(EN, "energy_result[key] = counts.total * energy_per_ac", "energy_result[key] = energy_per_ac * counts.total")]},
 ]
